@@ -49,6 +49,9 @@ FILES = {
     "OSq.Proofs.RoundTrip": {"C04": ["OSq.readLine3", "OSq.readProgram3", "OSq.param_value", "OSq.isParamTok", "OSq.decimalValue"], "C12": ["OSq.readLine1", "OSq.readProgram1", "OSq.exportV1_writable"],
                               "C20": ["OSq.readLine3_gate", "OSq.readLine1_gate"]},
     "OSq.Sem.Grammar": {"C04": None},
+    "OSq.Proofs.Bands": {"C01": None, "C02": ["OSq.Bands.composeRot_identity_band", "OSq.Bands.compose_identity_dist", "OSq.Bands.filter_identities_band"], "C15": ["OSq.Bands.rot_lipschitz", "OSq.Bands.rot_identity_band"]},
+    "OSq.Proofs.SchedSem": {"C11": None},
+    "OSq.Proofs.MergeIdem": {"C14": None, "C02": ["OSq.merge_idem_sem"]},
     "OSq.Proofs.GateTable": {"C07": None},
     "OSq.Proofs.Shape": {"C10": None},
     "OSq.Proofs.Equality": {"C16": None, "C17": ["OSq.compare"]},
